@@ -795,6 +795,33 @@ fn mgr<F: CKind>(args: &Args) {
             rows += 1;
             s.finish(Vec::new());
         }
+        // substitution objects created one after the other (the second typically gets the memory of the
+        // first): different replacements for the same variable on the same operand, large apply cache,
+        // no collection in between
+        if F::HAS_QUANT {
+            let mut s: CSession<F> = CSession::new(&mut out, 1 << 12, 1 << 12, threads, "mgr", &tmp);
+            s.add_vars(&[None, None, None, None], false);
+            let xs: Vec<Slot> = (0..4).map(|v| s.var(v, true).unwrap()).collect();
+            let f = s.bin("and", Some(xs[0]), Some(xs[1])).unwrap();
+            let g = s.bin("xor", Some(xs[0]), Some(xs[1])).unwrap();
+            for round in 0..3 {
+                for &(v, r) in &[(0u32, 2usize), (0, 3), (1, 2), (0, 1)] {
+                    let sub = s.subst_new(&[(v, xs[r])]);
+                    let r1 = s.substitute(Some(f), &sub);
+                    let r2 = s.substitute(Some(g), &sub);
+                    s.subst_free(sub);
+                    for r in [r1, r2].into_iter().flatten() {
+                        if round == 0 {
+                            s.queries(r);
+                        }
+                        s.cunref(r);
+                    }
+                }
+            }
+            calls += s.calls;
+            rows += 1;
+            s.finish(Vec::new());
+        }
     }
     out.finish();
     let _ = std::fs::remove_dir_all(&tmp);
